@@ -18,6 +18,8 @@ import (
 	"k8s.io/apimachinery/pkg/watch"
 	"sigs.k8s.io/controller-runtime/pkg/client"
 
+	schedv1 "k8s.io/api/scheduling/v1"
+
 	schedulingv1alpha2 "github.com/NVIDIA/KAI-scheduler/pkg/apis/scheduling/v1alpha2"
 	schedulingv2 "github.com/NVIDIA/KAI-scheduler/pkg/apis/scheduling/v2"
 	schedulingv2alpha2 "github.com/NVIDIA/KAI-scheduler/pkg/apis/scheduling/v2alpha2"
@@ -26,19 +28,20 @@ import (
 
 // Store is the API server's content.
 type Store struct {
-	Pods          map[string]*v1.Pod
-	Nodes         map[string]*v1.Node
-	BindRequests  map[string]*schedulingv1alpha2.BindRequest
-	ConfigMaps    map[string]*v1.ConfigMap
-	Queues        []*schedulingv2.Queue
-	PodGroups     []*schedulingv2alpha2.PodGroup
-	Calls         []string // every API call, in order
-	Writes        []string // mutating calls only
-	Faulted       []string // calls that were made to fail
-	FaultsOn      bool
-	CrashesOn     bool // a call may be the last thing the process does (see Crashed)
-	Crashed       bool
-	WatchFailures int // watches that did not deliver the reservation pod's GPU index
+	Pods            map[string]*v1.Pod
+	Nodes           map[string]*v1.Node
+	BindRequests    map[string]*schedulingv1alpha2.BindRequest
+	ConfigMaps      map[string]*v1.ConfigMap
+	Queues          []*schedulingv2.Queue
+	PodGroups       []*schedulingv2alpha2.PodGroup
+	PriorityClasses map[string]*schedv1.PriorityClass
+	Calls           []string // every API call, in order
+	Writes          []string // mutating calls only
+	Faulted         []string // calls that were made to fail
+	FaultsOn        bool
+	CrashesOn       bool // a call may be the last thing the process does (see Crashed)
+	Crashed         bool
+	WatchFailures   int // watches that did not deliver the reservation pod's GPU index
 }
 
 // CrashPanic is what every API call raises once the process has "died": the code under test unwinds
@@ -48,7 +51,7 @@ type CrashPanic struct{}
 
 func NewStore() *Store {
 	return &Store{Pods: map[string]*v1.Pod{}, Nodes: map[string]*v1.Node{}, BindRequests: map[string]*schedulingv1alpha2.BindRequest{},
-		ConfigMaps: map[string]*v1.ConfigMap{}}
+		ConfigMaps: map[string]*v1.ConfigMap{}, PriorityClasses: map[string]*schedv1.PriorityClass{}}
 }
 
 func key(ns, name string) string { return ns + "/" + name }
@@ -139,6 +142,26 @@ func (c *Client) Get(ctx context.Context, k client.ObjectKey, obj client.Object,
 			return notFound("configmaps", k.Name)
 		}
 		st.DeepCopyInto(o)
+	case *schedulingv2alpha2.PodGroup:
+		if err := c.S.call("get-podgroup", false); err != nil {
+			return err
+		}
+		for _, pg := range c.S.PodGroups {
+			if pg.Namespace == k.Namespace && pg.Name == k.Name {
+				pg.DeepCopyInto(o)
+				return nil
+			}
+		}
+		return notFound("podgroups", k.Name)
+	case *schedv1.PriorityClass:
+		if err := c.S.call("get-priorityclass", false); err != nil {
+			return err
+		}
+		st, ok := c.S.PriorityClasses[k.Name]
+		if !ok {
+			return notFound("priorityclasses", k.Name)
+		}
+		st.DeepCopyInto(o)
 	default:
 		panic(fmt.Sprintf("zz_veriffake: Get of unsupported type %T", obj))
 	}
@@ -188,6 +211,18 @@ func (c *Client) List(ctx context.Context, list client.ObjectList, opts ...clien
 			if pg.Spec.Queue == want {
 				l.Items = append(l.Items, *pg.DeepCopy())
 			}
+		}
+	case *schedv1.PriorityClassList:
+		if err := c.S.call("list-priorityclasses", false); err != nil {
+			return err
+		}
+		names := make([]string, 0, len(c.S.PriorityClasses))
+		for n := range c.S.PriorityClasses {
+			names = append(names, n)
+		}
+		sort.Strings(names)
+		for _, n := range names {
+			l.Items = append(l.Items, *c.S.PriorityClasses[n].DeepCopy())
 		}
 	default:
 		panic(fmt.Sprintf("zz_veriffake: List of unsupported type %T", list))
@@ -488,6 +523,17 @@ func (w *statusWriter) Patch(ctx context.Context, obj client.Object, patch clien
 			return notFound("bindrequests", o.Name)
 		}
 		o.Status.DeepCopyInto(&st.Status)
+	case *schedulingv2alpha2.PodGroup:
+		if err := w.c.S.call("patch-podgroup-status", true); err != nil {
+			return err
+		}
+		for _, pg := range w.c.S.PodGroups {
+			if pg.Namespace == o.Namespace && pg.Name == o.Name {
+				o.Status.DeepCopyInto(&pg.Status)
+				return nil
+			}
+		}
+		return notFound("podgroups", o.Name)
 	case *v1.Pod:
 		if err := w.c.S.call("patch-pod-status", true); err != nil {
 			return err
@@ -561,6 +607,10 @@ func podMatches(p *v1.Pod, opts []client.ListOption) bool {
 					}
 				case "metadata.name":
 					if p.Name != v {
+						return false
+					}
+				case "PodGroupToPodsIndexer": // the pod group controller's index: pods by their pod-group-name annotation
+					if name, ok := p.Annotations["pod-group-name"]; !ok || name != v {
 						return false
 					}
 				default:
